@@ -253,9 +253,10 @@ def render_strings(k, it: Item, meta, cfg, extra_derives=(), strum_path="strum")
             parts.append(('into', "<&'static str>::from(&val(j)).to_string()"))
         body = ['let j: usize = args[0].parse().unwrap();', 'let mut out: Vec<String> = Vec::new();']
         for tag, ex in parts:
-            body.append('out.push(format!("%s={}", catch(move || { let s = %s; match <%s as std::str::FromStr>::from_str(&s) { Ok(e) => vobs(&e), Err(e) => ErrObs::eobs(&e) } })));' % (tag, ex, ty))
+            # (FromStr and TryFrom<&str> always agree: both are asked)
+            body.append('out.push(format!("%s={}", catch(move || { let s = %s; let a = match <%s as std::str::FromStr>::from_str(&s) { Ok(e) => vobs(&e), Err(e) => ErrObs::eobs(&e) }; let b = match <%s as std::convert::TryFrom<&str>>::try_from(&s) { Ok(e) => vobs(&e), Err(e) => ErrObs::eobs(&e) }; if a == b { a } else { format!("TRYFROM-DIFFERS:{}/{}", a, b) } })));' % (tag, ex, ty, ty))
         if "EnumMessage" in derives:
-            body.append('{ use %s::EnumMessage; let v = val(j); let r: Vec<String> = v.get_serializations().iter().map(|s| match <%s as std::str::FromStr>::from_str(s) { Ok(e) => vobs(&e), Err(e) => ErrObs::eobs(&e) }).collect(); out.push(format!("sers=[{}]", r.join(";"))); }' % (strum_path, ty))
+            body.append('{ use %s::EnumMessage; let v = val(j); let r: Vec<String> = v.get_serializations().iter().map(|s| { let a = match <%s as std::str::FromStr>::from_str(s) { Ok(e) => vobs(&e), Err(e) => ErrObs::eobs(&e) }; let b = match <%s as std::convert::TryFrom<&str>>::try_from(*s) { Ok(e) => vobs(&e), Err(e) => ErrObs::eobs(&e) }; if a == b { a } else { format!("TRYFROM-DIFFERS:{}/{}", a, b) } }).collect(); out.push(format!("sers=[{}]", r.join(";"))); }' % (strum_path, ty, ty))
         body.append('out.join("|")')
         arms["roundtrip"] = "\n".join(body)
     src.append(RR.query_fn(arms))
